@@ -1,630 +1,56 @@
 """
-C02 translator: reads the per-keyword dispatch chain of `Shelxfile._parse_cards`, the constructors of the card
-classes of `cards.py`, `Atom.parse_line` and `Shelxfile.is_atom` off the working tree with `ast` and writes them
-as *requirement tables* (lean/ShelxModel/Extracted/C02Dispatch.lean, types in ShelxModel/C02.lean):
+C02 translator: writes the *requirement tables* of lean/ShelxModel/Extracted/C02Dispatch.lean (types in
+ShelxModel/C02.lean) from the working tree of the repository:
 
-  per branch / constructor a flat list of guarded steps — which `spline[i]` / `p[i]` / `words[i]` is read
-  (`needS/needP/needW`), which token goes through `float()` / `int()` (`toFloat/toInt/floatFrom/floatRange`),
-  `pop`s, tuple unpacking, `_parse_line` calls, card constructions, reachable `raise`s (an exception constructor
-  whose arguments mention an undefined name is a `NameError`, a `self.shx` that the class never assigns an
-  `AttributeError`), `continue`, `lastcard = …`, and the guards they sit under (`len(spline) == n`, `len(p) > n`,
-  diagnostic mode, `lastcard != 'X'`, parser flags, try/except).
+  per keyword of the dispatch chain of `Shelxfile._parse_cards` and per card constructor of `cards.py` (+
+  `Atom.parse_line`, `SFACTable.parse_element_line`) a flat list of guarded steps — which `spline[i]` / `p[i]` /
+  `words[i]` is read (`needS/needP/needW`), which token goes through `float()` / `int()`, `pop`s, tuple unpacking,
+  `_parse_line` calls, card constructions, reachable `raise`s (an undefined name on the way is a `NameError`, a
+  `self.shx` the class never assigns an `AttributeError`), `continue`, `lastcard = …`, and the guards they sit under.
 
-Nothing is imported from the repository.  Statements without a recognised hazard are skipped (they are covered by
-the digests of model_map.json and by the correspondence stream); a statement that *mentions* the tracked lists in
-a way the recogniser does not understand becomes an `unknown` step (which the model treats as raising) and a
-lost-message, so that the scope cannot shrink silently.
+Three readers work together (so that a behaviour-preserving respelling of the source does not change the table):
+
+  * c02_reader.py — an abstract interpreter over the syntax tree: values instead of names (renamed locals, helper
+    methods / functions / static methods / properties the code was moved into are followed, module-level and class-level
+    constants and regular expressions are evaluated, loops over constant tables unrolled, comparisons normalised, early
+    `return` / `continue` turned into guards, tuple assignment, `zip` / `setattr` tables …);
+  * c02_probe.py — the small pure functions whose *behaviour* is what the model assumes (`Command._parse_line`,
+    `Restraint._parse_line`, `is_atom`, the keyword table, case folding) are imported from the tree in a separate
+    interpreter and called on a fixed battery; an answer that does not have the shape the model assumes is a lost table;
+  * c02_assume.py — tests on values are recognised by what they compute on sample states, not by their text.
+
+The chain itself is read per keyword: the loop body of `_parse_cards` is a sequence of statements, some of them
+`if`/`elif` chains (or `match`) on the keyword; for one keyword, the handler is what the statements do in order for a
+line with that keyword (the matching arm of each chain, up to the first `continue`).  So an `if … continue` sequence,
+an `if/elif` chain, a membership test against a named frozenset and blocks merged or split differently all give the
+same table.
+
+A statement that *mentions* the tracked lists in a way the reader does not understand becomes an `unknown` step (which
+the model treats as raising) and a lost-message, so that the scope cannot shrink silently.
 """
 from __future__ import annotations
 
 import ast
-import builtins
-import re
+import json
+import subprocess
+import sys
 from pathlib import Path
 
 import extract
 from extract import lean_str, lean_list, HEADER, write_if_changed
 
+HERE = Path(__file__).resolve().parent
+if str(HERE) not in sys.path:
+    sys.path.insert(0, str(HERE))
+
+import c02_reader as R                 # noqa: E402
+from c02_consts import Program, ClassRef, NotConst      # noqa: E402
+from c02_values import Toks, Unk, ShxV, SelfV, Line, Last      # noqa: E402
+
 OUT = 'C02Dispatch.lean'
-CMP = {ast.Eq: 'Eq', ast.NotEq: 'Ne', ast.Gt: 'Gt', ast.Lt: 'Lt', ast.GtE: 'Ge', ast.LtE: 'Le'}
-NEG = {'Eq': 'Ne', 'Ne': 'Eq', 'Gt': 'Le', 'Le': 'Gt', 'Lt': 'Ge', 'Ge': 'Lt'}
-FLAGS = {'frag': 'frag', 'cell': 'cell', 'sfac_table': 'sfac', 'end': 'end', 'latt': 'latt'}
-MODES = {'debug': '.debug', 'verbose': '.verbose'}
-PARSE_ERRS = {'ParseOrderError', 'ParseNumError', 'ParseParamError', 'ParseUnknownParam', 'ParseSyntaxError'}
-PLAIN_ERRS = {'IndexError', 'ValueError', 'NameError', 'AttributeError', 'KeyError'}
-
-
-def err_of(name):
-    if name in PLAIN_ERRS:
-        return '.' + name
-    if name in PARSE_ERRS:
-        return '.ParseError'
-    return '.Other'
-
-
-class Cond:
-    """one guard atom; `lean` is the Lean term, `neg` its negation"""
-
-    def __init__(self, kind, *args):
-        self.kind, self.args = kind, args
-
-    def lean(self):
-        k, a = self.kind, self.args
-        if k in ('s', 'p', 'w'):
-            return f'.{k}{a[0]} {a[1]}'
-        if k == 'mode':
-            return '.modeIn ' + lean_list(sorted(a[0]))
-        if k in ('lastEq', 'lastNe', 'flagOn', 'flagOff', 'opaque'):
-            return f'.{k} {lean_str(a[0])}'
-        if k in ('notCaught', 'restAlpha', 'restNotAlpha'):
-            return f'.{k} {a[0]}'
-        if k == 'caught':
-            return f'.caught {a[0]} ' + lean_list(list(a[1]))
-        if k in ('lastIn', 'lastNotIn'):
-            return f'.{k} ' + lean_list([lean_str(x) for x in a[0]])
-        raise ValueError(k)
-
-    def neg(self):
-        k, a = self.kind, self.args
-        if k in ('s', 'p', 'w'):
-            return Cond(k, NEG[a[0]], a[1])
-        if k == 'mode':
-            return Cond('mode', {'.quiet', '.verbose', '.debug'} - set(a[0]))
-        sw = {'lastEq': 'lastNe', 'lastNe': 'lastEq', 'flagOn': 'flagOff', 'flagOff': 'flagOn',
-              'restAlpha': 'restNotAlpha', 'restNotAlpha': 'restAlpha', 'lastIn': 'lastNotIn', 'lastNotIn': 'lastIn'}
-        if k in ('caught', 'notCaught'):
-            return Cond('opaque', 'not:try-state')
-        if k in sw:
-            return Cond(sw[k], *a)
-        t = a[0]
-        return Cond('opaque', t[4:] if t.startswith('not:') else 'not:' + t)
-
-
-class Scanner:
-    """walks one function body and produces the flat step list"""
-
-    def __init__(self, module_names, classes, cls=None, self_is_parser=False):
-        self.module_names = module_names      # names defined at module level (+ builtins)
-        self.classes = classes                # name -> ClassDef of cards.py (and Atom)
-        self.cls = cls                        # ClassDef being scanned (None for _parse_cards)
-        self.self_is_parser = self_is_parser
-        self.steps = []                       # (conds, catch, tryid, act)
-        self.lost = []
-        self.ntry = 0
-        self.svar = set()                     # names of the token list (spline / atline / resi …)
-        self.pvar = set()                     # names / 'self.attr' of the numeric list
-        self.wvar = set()
-        self.locals = set()
-        self.loopvars = {}                    # loop target -> (a, b) slice of the token list it runs over
-        self.enum_len = {}                    # enumerate counter name -> length of the literal list
-        self.enum_fixed = {}                  # enumerate counter fixed by an enclosing `if n == k:`
-        self.attr_guard = {}                  # self.attr -> list of guard lists under which __init__ assigns it
-        self.depth = 0
-
-    # ---- helpers -------------------------------------------------------------------------------------------
-    def ref(self, node):
-        """'name' or 'self.attr' for Name / self.attr nodes"""
-        if isinstance(node, ast.Name):
-            return node.id
-        if isinstance(node, ast.Attribute) and isinstance(node.value, ast.Name) and node.value.id == 'self':
-            return 'self.' + node.attr
-        return None
-
-    def emit(self, conds, catch, tryid, act):
-        self.steps.append((list(conds), list(catch), tryid, act))
-
-    def mro_assigns(self, attr):
-        """does the class under scan (or a base) ever assign self.<attr>?"""
-        seen = set()
-        todo = [self.cls]
-        while todo:
-            c = todo.pop()
-            if c is None or c.name in seen:
-                continue
-            seen.add(c.name)
-            for n in ast.walk(c):
-                if isinstance(n, ast.Attribute) and isinstance(n.ctx, ast.Store) and isinstance(n.value, ast.Name) \
-                        and n.value.id == 'self' and n.attr == attr:
-                    return True
-                if isinstance(n, ast.AnnAssign) and isinstance(n.target, ast.Attribute) and n.target.attr == attr:
-                    return True
-            for st in c.body:
-                if isinstance(st, (ast.Assign, ast.AnnAssign)):
-                    tg = st.targets if isinstance(st, ast.Assign) else [st.target]
-                    if any(isinstance(t, ast.Name) and t.id == attr for t in tg):
-                        return True
-                if isinstance(st, ast.FunctionDef) and st.name == attr:
-                    return True
-            for b in c.bases:
-                if isinstance(b, ast.Name) and b.id in self.classes:
-                    todo.append(self.classes[b.id])
-        return False
-
-    def find_method(self, name):
-        seen = set()
-        todo = [self.cls]
-        while todo:
-            c = todo.pop(0)
-            if c is None or c.name in seen:
-                continue
-            seen.add(c.name)
-            for st in c.body:
-                if isinstance(st, ast.FunctionDef) and st.name == name:
-                    return c, st
-            for b in c.bases:
-                if isinstance(b, ast.Name) and b.id in self.classes:
-                    todo.append(self.classes[b.id])
-        return None, None
-
-    def base_kind(self):
-        """'restr' if the class derives from Restraint, 'cmd' if from Command, 'own' if it overrides _parse_line"""
-        c, m = self.find_method('_parse_line')
-        if c is None:
-            return None
-        return {'Restraint': 'restr', 'Command': 'cmd'}.get(c.name, 'own')
-
-    def undefined_in(self, node):
-        """kind of error raised while *evaluating* node because of a name/attribute that does not exist"""
-        for n in ast.walk(node):
-            if isinstance(n, ast.Name) and isinstance(n.ctx, ast.Load):
-                if n.id not in self.locals and n.id not in self.module_names and n.id != 'self':
-                    return '.NameError'
-            if isinstance(n, ast.Attribute) and isinstance(n.value, ast.Name) and n.value.id == 'self' and n.attr == 'shx':
-                if self.self_is_parser or (self.cls is not None and not self.mro_assigns('shx')):
-                    return '.AttributeError'
-        return None
-
-    def mode_of(self, node):
-        """self.debug / self.shx.verbose / shx.debug ... -> '.debug' / '.verbose'"""
-        if isinstance(node, ast.Attribute) and node.attr in MODES:
-            v = node.value
-            ok = (isinstance(v, ast.Name) and v.id in ('self', 'shx')) or \
-                 (isinstance(v, ast.Attribute) and v.attr in ('shx', '_shx') and isinstance(v.value, ast.Name) and v.value.id == 'self')
-            if ok and self.undefined_in(node) is None:
-                return MODES[node.attr]
-        return None
-
-    # ---- guards --------------------------------------------------------------------------------------------
-    def conj(self, test):
-        """test -> list of (Cond, node) in evaluation order (conjunction)"""
-        if isinstance(test, ast.BoolOp) and isinstance(test.op, ast.And):
-            out = []
-            for v in test.values:
-                out += self.conj(v)
-            return out
-        return [(self.atom(test), test)]
-
-    def atom(self, t):
-        if isinstance(t, ast.BoolOp) and isinstance(t.op, ast.Or):
-            ms = [self.mode_of(v) for v in t.values]
-            if all(ms):
-                return Cond('mode', set(ms))
-        m = self.mode_of(t)
-        if m:
-            return Cond('mode', {m})
-        if isinstance(t, ast.UnaryOp) and isinstance(t.op, ast.Not):
-            return self.atom(t.operand).neg()
-        if isinstance(t, ast.Compare) and len(t.ops) == 1 and type(t.ops[0]) in CMP:
-            l, r = t.left, t.comparators[0]
-            op = CMP[type(t.ops[0])]
-            if isinstance(l, ast.Call) and isinstance(l.func, ast.Name) and l.func.id == 'len' and len(l.args) == 1 \
-                    and isinstance(r, ast.Constant) and isinstance(r.value, int):
-                which = self.which(l.args[0])
-                if which:
-                    return Cond(which, op, r.value)
-            if isinstance(l, ast.Name) and l.id == 'lastcard' and isinstance(r, ast.Constant) and op in ('Eq', 'Ne'):
-                return Cond('last' + op, r.value)
-        if isinstance(t, ast.Compare) and len(t.ops) == 1 and isinstance(t.ops[0], (ast.In, ast.NotIn)) and isinstance(t.left, ast.Name) \
-                and t.left.id == 'lastcard' and isinstance(t.comparators[0], (ast.Tuple, ast.List)) \
-                and all(isinstance(e, ast.Constant) for e in t.comparators[0].elts):
-            return Cond('lastIn' if isinstance(t.ops[0], ast.In) else 'lastNotIn', [e.value for e in t.comparators[0].elts])
-        # ''.join(spline[a:]).isalpha()
-        if isinstance(t, ast.Call) and isinstance(t.func, ast.Attribute) and t.func.attr == 'isalpha' and isinstance(t.func.value, ast.Call) \
-                and isinstance(t.func.value.func, ast.Attribute) and t.func.value.func.attr == 'join' and t.func.value.args:
-            sb = self.slice_bounds(t.func.value.args[0])
-            if sb and sb[1] is None:
-                return Cond('restAlpha', sb[0])
-        which = self.which(t)
-        if which in ('p', 'w'):
-            return Cond(which, 'Gt', 0)
-        if self.self_is_parser and isinstance(t, ast.Attribute) and isinstance(t.value, ast.Name) and t.value.id == 'self' \
-                and t.attr in FLAGS:
-            return Cond('flagOn', FLAGS[t.attr])
-        return Cond('opaque', ast.unparse(t))
-
-    def which(self, node):
-        r = self.ref(node)
-        if r is None:
-            return None
-        if r in self.svar:
-            return 's'
-        if r in self.pvar:
-            return 'p'
-        if r in self.wvar:
-            return 'w'
-        return None
-
-    # ---- expressions ---------------------------------------------------------------------------------------
-    def const_index(self, sl):
-        if isinstance(sl, ast.Constant) and isinstance(sl.value, int):
-            return sl.value
-        if isinstance(sl, ast.UnaryOp) and isinstance(sl.op, ast.USub) and isinstance(sl.operand, ast.Constant):
-            return -sl.operand.value
-        if isinstance(sl, ast.BinOp) and isinstance(sl.op, ast.Add) and isinstance(sl.left, ast.Name) \
-                and sl.left.id in self.enum_len and isinstance(sl.right, ast.Constant):
-            if sl.left.id in self.enum_fixed:
-                return self.enum_fixed[sl.left.id] + sl.right.value
-            return self.enum_len[sl.left.id] - 1 + sl.right.value
-        return None
-
-    def slice_bounds(self, node):
-        """spline[a:b] -> (a, b or None) when node is a slice of the token list"""
-        if isinstance(node, ast.Subscript) and self.which(node.value) == 's' and isinstance(node.slice, ast.Slice) \
-                and node.slice.step is None:
-            lo = node.slice.lower
-            hi = node.slice.upper
-            a = 0 if lo is None else self.const_index(lo)
-            b = None if hi is None else self.const_index(hi)
-            if a is not None and a >= 0 and (hi is None or (b is not None and b >= 0)):
-                return a, b
-        return None
-
-    def expr(self, node, g):
-        """emit the hazards of evaluating `node` (source order)"""
-        conds, catch, tid = g
-        if node is None:
-            return
-        if isinstance(node, ast.BoolOp) and isinstance(node.op, ast.And):
-            cs = list(conds)
-            for c, sub in self.conj(node):
-                self.expr(sub, (cs, catch, tid))
-                cs = cs + [c]
-            return
-        if isinstance(node, ast.IfExp):
-            self.expr(node.test, g)
-            c = self.atom(node.test)
-            self.expr(node.body, (conds + [c], catch, tid))
-            self.expr(node.orelse, (conds + [c.neg()], catch, tid))
-            return
-        if isinstance(node, (ast.ListComp, ast.GeneratorExp, ast.SetComp)) and len(node.generators) == 1:
-            gen = node.generators[0]
-            if isinstance(gen.iter, ast.Subscript) and self.which(gen.iter.value) in ('p', 'w') and isinstance(gen.iter.slice, ast.Slice) \
-                    and isinstance(gen.target, ast.Name) and not gen.ifs:
-                return          # p holds floats already: int(x)/float(x) of an element cannot raise, slices never do
-            sb = self.slice_bounds(gen.iter)
-            if sb and isinstance(gen.target, ast.Name) and not gen.ifs:
-                conv = self.conv_of(node.elt, gen.target.id)
-                if conv == 'float':
-                    self.emit(conds, catch, tid, f'.floatFrom {sb[0]}' if sb[1] is None else f'.floatRange {sb[0]} {sb[1]}')
-                    return
-                if conv is None and not self.mentions_tracked(node.elt):
-                    return
-            if not self.mentions_tracked(node):
-                for n in ast.iter_child_nodes(node):
-                    pass
-                return
-            self.unknown(node, g)
-            return
-        if isinstance(node, ast.Call):
-            f = node.func
-            # float(spline[i]) / int(spline[i]) / float(spline[i].split('(')[0])
-            if isinstance(f, ast.Name) and f.id in ('float', 'int') and len(node.args) == 1:
-                subs = [n for n in ast.walk(node.args[0]) if isinstance(n, ast.Subscript) and self.which(n.value) == 's'
-                        and self.const_index(n.slice) is not None]
-                if len(subs) == 1 and self.const_index(subs[0].slice) >= 0:
-                    self.emit(conds, catch, tid, f'.to{f.id.capitalize()} {self.const_index(subs[0].slice)}')
-                    return
-                lv = [n for n in ast.walk(node.args[0]) if isinstance(n, ast.Name) and n.id in self.loopvars]
-                if len(lv) == 1:
-                    a, b = self.loopvars[lv[0].id]
-                    per = [c for c in conds if c.kind == 'opaque' and re.search(r'\b%s\b' % lv[0].id, c.args[0])]
-                    rest = [c for c in conds if c not in per]
-                    if f.id == 'float' and not per:
-                        self.emit(conds, catch, tid, f'.floatFrom {a}' if b is None else f'.floatRange {a} {b}')
-                        return
-                    if f.id == 'int' and b is None and len(per) == 1 and per[0].args[0].startswith('not:') and '.search(' in per[0].args[0]:
-                        # every token without a letter goes through int()
-                        self.emit(rest, catch, tid, f'.intNonWord {a}')
-                        return
-                    if per and all('.search(' in c.args[0] and not c.args[0].startswith('not:') for c in per[:1]):
-                        return      # conversions of a *part* of a word-like token (chain:number): value level, not modelled
-                    self.unknown(node, g)
-                    return
-            # x.pop(i)
-            if isinstance(f, ast.Attribute) and f.attr == 'pop' and self.which(f.value):
-                w = self.which(f.value)
-                i = self.const_index(node.args[0]) if node.args else None
-                if w == 's' and i is not None and i >= 0:
-                    self.emit(conds, catch, tid, f'.popS {i}')
-                    return
-                if w == 'p' and i == 0:
-                    self.emit(conds, catch, tid, '.popP')
-                    return
-                self.unknown(node, g)
-                return
-            # Cls(self, spline)
-            if isinstance(f, ast.Name) and f.id in self.classes and len(node.args) == 2 and self.which(node.args[1]) == 's':
-                self.emit(conds, catch, tid, f'.card {lean_str(f.id)}')
-                return
-            # a.parse_line(spline, ...)   (Atom)
-            if isinstance(f, ast.Attribute) and f.attr == 'parse_line' and node.args and self.which(node.args[0]) == 's':
-                self.emit(conds, catch, tid, '.card "Atom"')
-                return
-            # self.sfac_table.parse_element_line(spline)
-            if isinstance(f, ast.Attribute) and f.attr == 'parse_element_line' and node.args and self.which(node.args[0]) == 's':
-                self.emit(conds, catch, tid, '.card "SFACTable.parse_element_line"')
-                self.emit(conds, [], 0, '.setFlag "sfac" true')
-                return
-            # self._parse_line(spline[, intnums=…])
-            if isinstance(f, ast.Attribute) and f.attr == '_parse_line' and isinstance(f.value, ast.Name) and f.value.id == 'self' \
-                    and node.args and self.which(node.args[0]) == 's':
-                kind = self.base_kind()
-                if kind == 'cmd':
-                    intn = False
-                    for kw in node.keywords:
-                        if kw.arg == 'intnums' and isinstance(kw.value, ast.Constant):
-                            intn = bool(kw.value.value)
-                    if len(node.args) > 1 and isinstance(node.args[1], ast.Constant):
-                        intn = bool(node.args[1].value)
-                    self.emit(conds, catch, tid, f'.parseCmd {"true" if intn else "false"}')
-                elif kind == 'restr':
-                    self.emit(conds, catch, tid, '.parseRestr')
-                elif kind == 'own':
-                    c, m = self.find_method('_parse_line')
-                    self.inline(m, node, g)
-                else:
-                    self.unknown(node, g)
-                return
-            # self.helper(...) of the same class: inline
-            if isinstance(f, ast.Attribute) and isinstance(f.value, ast.Name) and f.value.id == 'self' and self.cls is not None:
-                c, m = self.find_method(f.attr)
-                if m is not None and self.depth < 3 and f.attr not in ('__init__',):
-                    for a in node.args:
-                        self.expr(a, g)
-                    self.inline(m, node, g)
-                    return
-            for a in list(node.args) + [k.value for k in node.keywords]:
-                self.expr(a, g)
-            if isinstance(f, ast.Attribute):
-                self.expr(f.value, g)
-            elif isinstance(f, ast.Name):
-                self.name(f, g)
-            return
-        if isinstance(node, ast.Subscript):
-            w = self.which(node.value)
-            if w:
-                if isinstance(node.slice, ast.Slice):
-                    return
-                i = self.const_index(node.slice)
-                if i is None:
-                    self.unknown(node, g)
-                    return
-                if i < 0:
-                    i = -i - 1
-                self.emit(conds, catch, tid, f'.need{w.upper()} {i}')
-                return
-            self.expr(node.value, g)
-            self.expr(node.slice, g)
-            return
-        if isinstance(node, ast.Name):
-            self.name(node, g)
-            return
-        if isinstance(node, ast.Attribute) and isinstance(node.ctx, ast.Load) and self.cls is not None and self.ref(node) in self.attr_guard:
-            gs = self.attr_guard[self.ref(node)]
-            if gs and all(len(x) == 1 for x in gs) and len({x[0].lean() for x in gs}) == 1:
-                # e.g. `self.d` of DFIX is assigned under `len(p) > 0` only: reading it otherwise is an AttributeError
-                self.emit(conds + [gs[0][0].neg()], catch, tid, '.raise .AttributeError')
-        if isinstance(node, ast.Attribute):
-            if isinstance(node.value, ast.Name) and node.value.id == 'self' and node.attr == 'shx' and not self.self_is_parser \
-                    and self.cls is not None and not self.mro_assigns('shx'):
-                self.emit(conds, catch, tid, '.raise .AttributeError')
-                return
-            if self.self_is_parser and isinstance(node.value, ast.Name) and node.value.id == 'self' and node.attr == 'shx':
-                self.emit(conds, catch, tid, '.raise .AttributeError')
-                return
-            self.expr(node.value, g)
-            return
-        for ch in ast.iter_child_nodes(node):
-            if isinstance(ch, ast.expr):
-                self.expr(ch, g)
-
-    def name(self, node, g):
-        if isinstance(node.ctx, ast.Load) and node.id not in self.locals and node.id not in self.module_names and node.id != 'self':
-            self.emit(g[0], g[1], g[2], '.raise .NameError')
-
-    def conv_of(self, elt, var):
-        if isinstance(elt, ast.Call) and isinstance(elt.func, ast.Name) and elt.func.id in ('float', 'int') and len(elt.args) == 1 \
-                and isinstance(elt.args[0], ast.Name) and elt.args[0].id == var:
-            return elt.func.id
-        return None
-
-    def mentions_tracked(self, node):
-        for n in ast.walk(node):
-            if self.which(n):
-                return True
-            if isinstance(n, ast.Name) and n.id in self.loopvars:
-                return True
-        return False
-
-    def unknown(self, node, g):
-        txt = ast.unparse(node)[:80]
-        self.emit(g[0], g[1], g[2], f'.unknown {lean_str(txt)}')
-        self.lost.append(txt)
-
-    def inline(self, m, call, g):
-        """scan the body of a helper method with the caller's tracked lists mapped to its parameters"""
-        params = [a.arg for a in m.args.args][1:]
-        saved = (set(self.svar), set(self.pvar), set(self.wvar), set(self.locals))
-        for p, a in zip(params, call.args):
-            w = self.which(a)
-            if w == 's':
-                self.svar.add(p)
-            elif w == 'p':
-                self.pvar.add(p)
-            elif w == 'w':
-                self.wvar.add(p)
-        self.locals |= local_names(m)
-        self.depth += 1
-        self.walk(m.body, g)
-        self.depth -= 1
-        self.svar, self.pvar, self.wvar, self.locals = saved
-
-    # ---- statements ----------------------------------------------------------------------------------------
-    def walk(self, stmts, g):
-        conds, catch, tid = g
-        for st in stmts:
-            if isinstance(st, ast.If) and isinstance(st.test, ast.Compare) and isinstance(st.test.left, ast.Name) \
-                    and st.test.left.id in self.enum_len and isinstance(st.test.ops[0], ast.Eq) \
-                    and isinstance(st.test.comparators[0], ast.Constant) and not st.orelse:
-                self.enum_fixed[st.test.left.id] = st.test.comparators[0].value
-                self.walk(st.body, g)
-                del self.enum_fixed[st.test.left.id]
-            elif isinstance(st, ast.If):
-                cs = list(conds)
-                for c, sub in self.conj(st.test):
-                    self.expr(sub, (cs, catch, tid))
-                    cs = cs + [c]
-                self.walk(st.body, (cs, catch, tid))
-                if st.orelse:
-                    atoms = self.conj(st.test)
-                    if len(atoms) == 1:
-                        ncs = conds + [atoms[0][0].neg()]
-                    else:
-                        ncs = conds + [Cond('opaque', 'not:(' + ast.unparse(st.test) + ')')]
-                    self.walk(st.orelse, (ncs, catch, tid))
-            elif isinstance(st, ast.Try):
-                self.ntry += 1
-                k = self.ntry
-                def hclasses(h):
-                    t = h.type
-                    if t is None:
-                        return sorted('.' + c for c in list(PLAIN_ERRS) + ['ParseError', 'Other'])
-                    names = [t] if not isinstance(t, ast.Tuple) else list(t.elts)
-                    out = []
-                    for n in names:
-                        if isinstance(n, ast.Name):
-                            out.append(n.id if n.id in PLAIN_ERRS else ('ParseError' if n.id in PARSE_ERRS else 'Other'))
-                    return sorted(set('.' + c for c in out))
-                cl = sorted(set(c for h in st.handlers for c in hclasses(h)))
-                self.walk(st.body, (conds + [Cond('notCaught', k)], cl, k))
-                for h in st.handlers:
-                    hc = hclasses(h)
-                    self._caught_class = hc[0] if hc else '.Other'
-                    self.walk(h.body, (conds + [Cond('caught', k, hc)], catch, tid))
-                self.walk(st.orelse, (conds + [Cond('notCaught', k)], catch, tid))
-                self.walk(st.finalbody, g)
-            elif isinstance(st, ast.With):
-                self.walk(st.body, g)
-            elif isinstance(st, ast.For):
-                sb = None
-                it = st.iter
-                tgt = st.target
-                if isinstance(it, ast.Call) and isinstance(it.func, ast.Name) and it.func.id == 'enumerate' and it.args:
-                    inner = it.args[0]
-                    if isinstance(tgt, ast.Tuple) and len(tgt.elts) == 2 and isinstance(tgt.elts[0], ast.Name):
-                        if isinstance(inner, (ast.List, ast.Tuple)):
-                            self.enum_len[tgt.elts[0].id] = len(inner.elts)
-                        it, tgt = inner, tgt.elts[1]
-                sb = self.slice_bounds(it)
-                if sb is None and self.which(it) == 's':
-                    sb = (0, None)
-                if sb and isinstance(tgt, ast.Name):
-                    self.loopvars[tgt.id] = sb
-                else:
-                    self.expr(st.iter, g)
-                self.walk(st.body, g)
-            elif isinstance(st, ast.Raise):
-                if st.exc is None:
-                    self.emit(conds, catch, tid, f'.raise {getattr(self, "_caught_class", ".Other")}')
-                    continue
-                und = self.undefined_in(st.exc)
-                if und:
-                    self.emit(conds, catch, tid, f'.raise {und}')
-                    continue
-                exc = st.exc.func if isinstance(st.exc, ast.Call) else st.exc
-                self.emit(conds, catch, tid, f'.raise {err_of(exc.id if isinstance(exc, ast.Name) else "?")}')
-            elif isinstance(st, ast.Continue):
-                self.emit(conds, [], 0, '.stop')
-            elif isinstance(st, (ast.Assign, ast.AnnAssign, ast.AugAssign, ast.Expr, ast.Return)):
-                val = st.value
-                tgts = st.targets if isinstance(st, ast.Assign) else ([st.target] if hasattr(st, 'target') else [])
-                # p, w = self._parse_line(...)
-                if isinstance(val, ast.Call) and isinstance(val.func, ast.Attribute) and val.func.attr == '_parse_line' and tgts:
-                    self.expr(val, g)
-                    t = tgts[0]
-                    if isinstance(t, ast.Tuple) and len(t.elts) == 2 and self.base_kind() in ('cmd', 'restr'):
-                        a, b = self.ref(t.elts[0]), self.ref(t.elts[1])
-                        if a:
-                            self.pvar.add(a)
-                        if b:
-                            self.wvar.add(b)
-                    continue
-                # a, b = p
-                if tgts and isinstance(tgts[0], ast.Tuple) and self.which(val) == 'p':
-                    self.emit(conds, catch, tid, f'.unpackP {len(tgts[0].elts)}')
-                    continue
-                self.expr(val, g)
-                if self.cls is not None and self.depth == 0:
-                    for t in tgts:
-                        for tt in (t.elts if isinstance(t, ast.Tuple) else [t]):
-                            r = self.ref(tt)
-                            if r and r.startswith('self.'):
-                                own = [c for c in conds if c.kind not in ('notCaught',)]
-                                self.attr_guard.setdefault(r, []).append(own)
-                for t in tgts:
-                    if isinstance(t, ast.Name) and t.id == 'lastcard' and isinstance(val, ast.Constant):
-                        self.emit(conds, [], 0, f'.setLast {lean_str(val.value)}')
-                    if self.self_is_parser and self.ref(t) and self.ref(t).startswith('self.') and self.ref(t)[5:] in FLAGS:
-                        v = not (isinstance(val, ast.Constant) and val.value in (None, False))
-                        self.emit(conds, [], 0, f'.setFlag {lean_str(FLAGS[self.ref(t)[5:]])} {"true" if v else "false"}')
-                    if isinstance(t, ast.Subscript):
-                        self.expr(t.value, g)
-            elif isinstance(st, (ast.Pass, ast.Break, ast.Global, ast.Import, ast.ImportFrom)):
-                pass
-            elif isinstance(st, ast.While):
-                self.walk(st.body, g)
-            else:
-                if self.mentions_tracked(st):
-                    self.unknown(st, g)
-
-
-def local_names(fn):
-    out = {a.arg for a in fn.args.args + fn.args.kwonlyargs}
-    if fn.args.vararg:
-        out.add(fn.args.vararg.arg)
-    if fn.args.kwarg:
-        out.add(fn.args.kwarg.arg)
-    for n in ast.walk(fn):
-        if isinstance(n, ast.Name) and isinstance(n.ctx, (ast.Store, ast.Del)):
-            out.add(n.id)
-        if isinstance(n, ast.ExceptHandler) and n.name:
-            out.add(n.name)
-    return out
-
-
-def module_level_names(tree):
-    out = set(dir(builtins))
-    for st in tree.body:
-        if isinstance(st, (ast.FunctionDef, ast.ClassDef)):
-            out.add(st.name)
-        elif isinstance(st, (ast.Import, ast.ImportFrom)):
-            for a in st.names:
-                out.add((a.asname or a.name).split('.')[0])
-        elif isinstance(st, (ast.Assign, ast.AnnAssign)):
-            for t in (st.targets if isinstance(st, ast.Assign) else [st.target]):
-                for n in ast.walk(t):
-                    if isinstance(n, ast.Name):
-                        out.add(n.id)
-        elif isinstance(st, (ast.If, ast.Try)):
-            if isinstance(st, ast.If) and '__name__' in ast.unparse(st.test):
-                continue          # names bound only when the module runs as a script do not exist for the library
-            for n in ast.walk(st):
-                if isinstance(n, (ast.Import, ast.ImportFrom)):
-                    for a in n.names:
-                        out.add((a.asname or a.name).split('.')[0])
-                if isinstance(n, ast.Name) and isinstance(n.ctx, ast.Store):
-                    out.add(n.id)
-    return out
+SHELX = 'shelxfile.shelx.shelx'
+CARDS = 'shelxfile.shelx.cards'
+ATOM = 'shelxfile.atoms.atom'
 
 
 def encode(s):
@@ -648,212 +74,300 @@ def lean_steps(steps, indent='      '):
     return '[\n' + ',\n'.join(rows) + ']' if rows else '[]'
 
 
-def branch_test(test):
-    """the keyword test of one arm of the chain -> Lean `Test` (or None when it is not a keyword test)"""
-    first = test.values[0] if isinstance(test, ast.BoolOp) and isinstance(test.op, ast.And) else test
-    if isinstance(first, ast.Compare) and len(first.ops) == 1 and isinstance(first.left, ast.Name) and first.left.id == 'word':
-        r = first.comparators[0]
-        if isinstance(first.ops[0], ast.Eq) and isinstance(r, ast.Constant):
-            return f'.wordEq {lean_str(r.value)} {encode(r.value)}', first is test
-        if isinstance(first.ops[0], ast.In) and isinstance(r, (ast.List, ast.Tuple)) and all(isinstance(e, ast.Constant) for e in r.elts):
-            return '.wordIn ' + lean_list([lean_str(e.value) for e in r.elts]) + ' ' + lean_list([str(encode(e.value)) for e in r.elts]), first is test
-    if isinstance(first, ast.Call) and isinstance(first.func, ast.Attribute) and first.func.attr == 'startswith' \
-            and isinstance(first.func.value, ast.Name) and first.func.value.id == 'line' and len(first.args) == 1:
-        a = first.args[0]
-        if isinstance(a, ast.Constant):
-            return f'.starts {lean_str(a.value)} {encode(a.value)}', first is test
-        return 'RESET', False          # line.startswith(('END', 'HKLF')) and self.xxx : context reset block
-    if isinstance(first, ast.Call) and isinstance(first.func, ast.Attribute) and first.func.attr == 'is_atom':
-        return '.isAtom', first is test
-    return None, False
-
-
 def fallback(out: Path):
     write_if_changed(out / OUT, HEADER + 'import ShelxModel.C02\nnamespace Shelx.C02.Extracted\nopen Shelx.C02\n'
                      'def tables : Tables := { shxCards := [], dispatch := [], cards := [], atomMinCols := 5 }\n'
                      'end Shelx.C02.Extracted\n')
 
 
+def run_probe(repo):
+    p = subprocess.run([sys.executable, str(HERE / 'c02_probe.py'), '--repo', str(repo)], stdout=subprocess.PIPE, stderr=subprocess.PIPE,
+                       text=True, timeout=120, env={'PATH': '/usr/bin:/bin', 'PYTHONDONTWRITEBYTECODE': '1', 'PYTHONHASHSEED': '0'})
+    if p.returncode != 0:
+        return dict(problems=[f'c02_probe.py failed: {p.stderr[-300:]}'])
+    try:
+        return json.loads(p.stdout[p.stdout.index('{'):])
+    except ValueError:
+        return dict(problems=[f'c02_probe.py printed no result: {p.stdout[-200:]} {p.stderr[-200:]}'])
+
+
+# ----------------------------------------------------------------------------------------------------------------
+# the dispatch chain
+
+def find_statevar(cls_node, fn):
+    """the variable that remembers the last header keyword: assigned string constants and compared with string constants"""
+    def ref(n):
+        if isinstance(n, ast.Name):
+            return n.id
+        if isinstance(n, ast.Attribute) and isinstance(n.value, ast.Name) and n.value.id == 'self':
+            return 'self.' + n.attr
+        return None
+
+    def strs(n):
+        if isinstance(n, ast.Constant):
+            return isinstance(n.value, str)
+        if isinstance(n, (ast.Tuple, ast.List, ast.Set)):
+            return bool(n.elts) and all(isinstance(e, ast.Constant) and isinstance(e.value, str) for e in n.elts)
+        return False
+    assigned, compared = {}, {}
+    scope = [fn] + [s for s in cls_node.body if isinstance(s, ast.FunctionDef) and s is not fn]
+    for f in scope:
+        for n in ast.walk(f):
+            if isinstance(n, ast.Assign) and len(n.targets) == 1 and isinstance(n.value, ast.Constant) and isinstance(n.value.value, str):
+                r = ref(n.targets[0])
+                if r and (f is fn or r.startswith('self.')):
+                    assigned[r] = assigned.get(r, 0) + 1
+            if isinstance(n, ast.Compare) and len(n.ops) == 1 and isinstance(n.ops[0], (ast.Eq, ast.NotEq, ast.In, ast.NotIn)):
+                r = ref(n.left)
+                if r and strs(n.comparators[0]) and (f is fn or r.startswith('self.')):
+                    compared[r] = compared.get(r, 0) + 1
+    cands = [r for r in assigned if r in compared and assigned[r] >= 2]
+    cands.sort(key=lambda r: -(assigned[r] + compared[r]))
+    return cands[0] if cands else None
+
+
+def parser_attr_classes(prog, shelx_cls):
+    """self.<attr> = Cls(...) in Shelxfile.__init__: parser attribute -> class"""
+    out = {}
+    r, init = prog.method(shelx_cls, '__init__')
+    if init is None:
+        return out
+    mod = prog.module(r.mod)
+    for n in ast.walk(init):
+        if isinstance(n, (ast.Assign, ast.AnnAssign)) and n.value is not None and isinstance(n.value, ast.Call) and isinstance(n.value.func, ast.Name):
+            tg = n.targets if isinstance(n, ast.Assign) else [n.target]
+            for t in tg:
+                if isinstance(t, ast.Attribute) and isinstance(t.value, ast.Name) and t.value.id == 'self':
+                    try:
+                        v = mod.value(n.value.func.id)
+                    except NotConst:
+                        continue
+                    if isinstance(v, ClassRef):
+                        out[t.attr] = v
+    return out
+
+
+class Chain:
+    """reads the loop of `_parse_cards` for one keyword at a time"""
+
+    def __init__(self, prog, prims, shelx_cls, fn, owner):
+        self.prog, self.prims, self.cls, self.fn, self.owner = prog, prims, shelx_cls, fn, owner
+        self.lost = []
+        self.notes = []
+        self.pattr = parser_attr_classes(prog, shelx_cls)
+        self.statevar = find_statevar(prog.cls(owner), fn)
+        self.cards_used = []
+
+    def new_scanner(self):
+        sc = R.Scanner(self.prog, self.prims, 'parser', self.pattr, self.statevar)
+        fr = R.Frame(self.fn, self.prog.module(self.owner.mod), SelfV('parser', self.cls), top=True)
+        fr.owner = self.owner
+        fr.env['self'] = fr.selfav
+        if self.statevar and not self.statevar.startswith('self.'):
+            fr.env[self.statevar] = Last()
+        sc.frames.append(fr)
+        return sc
+
+    def run_key(self, key):
+        """the whole loop body for a line with keyword `key`: every test of the keyword is decided, everything else is read"""
+        sc = self.new_scanner()
+        sc.cur_key = key
+        g = ([], [], 0)
+        body = self.fn.body
+        loop = None
+        for st in body:
+            if isinstance(st, ast.For) and loop is None:
+                loop = st
+                break
+            n0 = len(sc.steps)
+            sc.stmt(st, g)
+            for s in sc.steps[n0:]:
+                if s[3].startswith('.setLast') and s[3] != '.setLast ""':
+                    self.lost.append(f'_parse_cards: the state variable does not start empty: {s[3]}')
+                elif not s[3].startswith(('.setLast', '.setFlag')):
+                    self.lost.append(f'_parse_cards: requirement in front of the loop: {s[3]}')
+            del sc.steps[n0:]
+        if loop is None:
+            raise ValueError('_parse_cards: no for loop')
+        spec = sc.iteration(loop.iter, g)
+        tgt = loop.target
+        if spec[0] == 'enumres' and isinstance(tgt, (ast.Tuple, ast.List)) and len(tgt.elts) == 2:
+            sc.bind(tgt.elts[0], Unk(), g, tgt)
+            sc.bind(tgt.elts[1], Line(), g, tgt)
+        elif spec[0] == 'other' and type(spec[1]).__name__ == 'ResList':
+            sc.bind(tgt, Line(), g, tgt)
+        else:
+            self.lost.append('_parse_cards: the loop does not run over the lines of the file')
+            sc.bind(tgt, Unk(), g, tgt)
+        del sc.steps[:]
+        sc.dead = False
+        sc.walk(loop.body, g)
+        return sc
+
+
+def scan_card(prog, prims, row, cls, meth, sig, pattr):
+    r, fn = prog.method(cls, meth)
+    sc = R.Scanner(prog, prims, 'card', pattr, None)
+    fr = R.Frame(fn, prog.module(r.mod), SelfV('card', cls), top=True)
+    fr.owner = r
+    a = fn.args
+    params = [x.arg for x in a.posonlyargs + a.args]
+    fr.env[params[0]] = fr.selfav
+    roles = {}
+    for p, role in zip(params[1:], sig[0]):
+        roles[p] = role
+    for k, role in sig[1]:
+        roles[k] = role
+    for p in params[1:] + [x.arg for x in a.kwonlyargs]:
+        role = roles.get(p, 'unk')
+        fr.env[p] = Toks('s') if role == 'S' else ShxV() if role == 'shx' else Unk()
+    sc.frames.append(fr)
+    sc.stack.append(fn)
+    sc.walk(fn.body, ([], [], 0))
+    return sc
+
+
 @extract.extractor
 def c02_tables(repo: Path, out: Path):
     lost = []
-    shelx = extract.parse(repo, 'shelxfile/shelx/shelx.py')
-    cards = extract.parse(repo, 'shelxfile/shelx/cards.py')
-    atom = extract.parse(repo, 'shelxfile/atoms/atom.py')
-    # SHX_CARDS -------------------------------------------------------------------------------------------------
-    shx_cards = None
-    for st in shelx.body:
-        if isinstance(st, ast.Assign) and any(isinstance(t, ast.Name) and t.id == 'SHX_CARDS' for t in st.targets):
-            shx_cards = list(ast.literal_eval(st.value))
-    if shx_cards is None:
-        raise ValueError('SHX_CARDS not found')
-    # is_atom: minimum number of columns -----------------------------------------------------------------------
-    isatom = extract.find(shelx, 'Shelxfile.is_atom')
-    mincols = None
-    for n in ast.walk(isatom):
-        if isinstance(n, ast.Compare) and isinstance(n.left, ast.Call) and getattr(n.left.func, 'id', '') == 'len' \
-                and isinstance(n.ops[0], ast.Lt) and isinstance(n.comparators[0], ast.Constant):
-            mincols = n.comparators[0].value
+
+    def lose(what):
+        lost.append(dict(props=['C02'], what=what))
+    prog = Program(repo)
+    shelx = prog.module(SHELX)
+    if shelx is None or 'Shelxfile' not in shelx.classes:
+        raise ValueError('shelx.py: class Shelxfile not found')
+    shelx_cls = ClassRef(SHELX, 'Shelxfile')
+    owner, pcf = prog.method(shelx_cls, '_parse_cards')
+    if pcf is None:
+        raise ValueError('Shelxfile._parse_cards not found')
+    # ---- behaviour of the small pure functions ---------------------------------------------------------------
+    probe = run_probe(repo)
+    for p in probe.get('problems', []):
+        lose('probe: ' + p)
+    prims = {}
+    dot = None
+    upper = {'cmd': False, 'restr': False}
+    for e in probe.get('primitives', []):
+        for p in e['problems']:
+            lose('probe: ' + p)
+        prims[(e['cls'], e['name'])] = dict(kind=e['kind'], flag=e.get('flag'))
+        if e['kind'] == 'cmd':
+            dot = e.get('dot') if dot is None else (dot if dot == e.get('dot') else 'differ')
+        upper[e['kind']] = e.get('upper', False) if not [x for x in probe['primitives'] if x['kind'] == e['kind'] and x is not e] \
+            else all(x.get('upper', False) for x in probe['primitives'] if x['kind'] == e['kind'])
+    if dot is None or dot == 'differ':
+        lose('Command._parse_line: whether a leading `.` starts a number could not be established')
+        dot = False
+    ia = probe.get('is_atom') or {}
+    mincols = ia.get('mincols')
     if mincols is None:
-        lost.append(dict(props=['C02'], what='is_atom: `len(spline) < n` not found'))
+        lose('is_atom: the minimum number of columns could not be established')
         mincols = 5
-    # is_atom: is the `> 4.0` test applied to the raw coordinate (then 10.25 is refused) or to the decoded one?
-    unreal = extract.find(shelx, 'Shelxfile._coordinates_are_unrealistic') or isatom
-    has_limit = any(isinstance(n, ast.Compare) and isinstance(n.ops[0], (ast.Gt, ast.GtE)) and isinstance(n.comparators[0], ast.Constant)
-                    and isinstance(n.comparators[0].value, float) for n in ast.walk(unreal))
-    decodes = any(isinstance(n, ast.Name) and n.id == 'split_fvar_and_parameter' for n in ast.walk(unreal))
-    rejects_big = has_limit and not decodes
-    # Command._parse_line: does a leading '.' start a number?
-    cpl = extract.find(cards, 'Command._parse_line')
-    dot = False
-    if cpl is None:
-        lost.append(dict(props=['C02'], what='Command._parse_line not found'))
-    else:
-        for n in ast.walk(cpl):
-            if isinstance(n, ast.If) and any(isinstance(c, ast.Call) and getattr(c.func, 'attr', '') == 'isdigit' for c in ast.walk(n.test)):
-                dot = any(isinstance(c, ast.Constant) and isinstance(c.value, str) and '.' in c.value for c in ast.walk(n.test))
-    # keyword case: the model's lines carry the keyword in upper case; that abstraction is sound only while every
-    # place that reads the keyword off the line folds its case
-    def has_upper(node):
-        return any(isinstance(n, ast.Call) and isinstance(n.func, ast.Attribute) and n.func.attr == 'upper' for n in ast.walk(node))
-
-    def assigns_upper(fn, target):
-        """every assignment in fn whose target (possibly inside a tuple) is `target` takes its value through .upper()"""
-        found, ok = False, True
-        for n in ast.walk(fn) if fn is not None else []:
-            if isinstance(n, ast.Assign):
-                for t in n.targets:
-                    for tt in (t.elts if isinstance(t, ast.Tuple) else [t]):
-                        if ast.unparse(tt) == target:
-                            found = True
-                            ok = ok and has_upper(n.value)
-        return found and ok
-    pcf = extract.find(shelx, 'Shelxfile._parse_cards')
-    word_from_upper = False
-    if pcf is not None:
-        upper_line = False
-        for n in ast.walk(pcf):
-            if isinstance(n, ast.Assign) and any(ast.unparse(t) == 'line' for t in n.targets) and has_upper(n.value):
-                upper_line = True
-            if isinstance(n, ast.Assign) and any(ast.unparse(t) == 'word' for t in n.targets):
-                word_from_upper = upper_line or has_upper(n.value)
-    case_sites = [('_parse_cards: word', word_from_upper),
-                  ('is_atom: first word', has_upper(isatom)),
-                  ('Command._parse_line: _card_name', assigns_upper(extract.find(cards, 'Command._parse_line'), 'self._card_name')),
-                  ('Restraint._parse_line: name', assigns_upper(extract.find(cards, 'Restraint._parse_line'), 'self.name'))]
-    # card classes ------------------------------------------------------------------------------------------------
-    classes = {c.name: c for c in cards.body if isinstance(c, ast.ClassDef)}
-    cnames = module_level_names(cards)
-    card_rows = []
-    for name, c in classes.items():
-        init = extract.find(c, '__init__')
-        if init is None or len(init.args.args) != 3:
-            continue
-        sc = Scanner(cnames, classes, cls=c)
-        sc.locals = local_names(init)
-        sc.svar = {init.args.args[2].arg}
-        sc.walk(init.body, ([], [], 0))
-        card_rows.append((name, sc.steps))
-        lost += [dict(props=['C02'], what=f'cards.py {name}.__init__: not understood: {t}') for t in sc.lost]
-    # SFACTable.parse_element_line
-    sf = extract.find(cards, 'SFACTable.parse_element_line')
-    if sf is not None:
-        sc = Scanner(cnames, classes, cls=classes['SFACTable'])
-        sc.locals = local_names(sf)
-        sc.svar = {sf.args.args[1].arg}
-        sc.walk(sf.body, ([], [], 0))
-        card_rows.append(('SFACTable.parse_element_line', sc.steps))
-        lost += [dict(props=['C02'], what=f'cards.py SFACTable.parse_element_line: not understood: {t}') for t in sc.lost]
-    # Atom.parse_line
-    aclass = extract.find(atom, 'Atom')
-    ap = extract.find(atom, 'Atom.parse_line')
-    if ap is not None:
-        sc = Scanner(module_level_names(atom), {'Atom': aclass}, cls=aclass)
-        sc.locals = local_names(ap)
-        sc.svar = {ap.args.args[1].arg}
-        sc.walk(ap.body, ([], [], 0))
-        card_rows.append(('Atom', sc.steps))
-        lost += [dict(props=['C02'], what=f'atom.py Atom.parse_line: not understood: {t}') for t in sc.lost]
-    else:
-        lost.append(dict(props=['C02'], what='Atom.parse_line not found'))
-    # the dispatch chain ------------------------------------------------------------------------------------------
-    pc = extract.find(shelx, 'Shelxfile._parse_cards')
-    loop = next((n for n in pc.body if isinstance(n, ast.For)), None)
-    if loop is None:
-        raise ValueError('_parse_cards: no for loop')
-    snames = module_level_names(shelx)
-    all_classes = dict(classes)
-    branches = []
-    seen_word = False
-
-    def scan_branch(test_lean, whole, test, body):
-        sc = Scanner(snames, all_classes, cls=None, self_is_parser=True)
-        sc.locals = local_names(pc)
-        sc.svar = {'spline'}
-        pre = []
-        if not whole:     # further conjuncts of the test guard the body (none in the present code)
-            pre = [c for c, _ in sc.conj(test)][1:]
-        sc.walk(body, (pre, [], 0))
-        branches.append((test_lean, sc.steps))
-        lost.extend(dict(props=['C02'], what=f'shelx.py branch {test_lean}: not understood: {t}') for t in sc.lost)
-
-    def chain(node):
-        while True:
-            t, whole = branch_test(node.test)
-            if t == 'RESET':
-                sc = Scanner(snames, all_classes, cls=None, self_is_parser=True)
-                sc.locals = local_names(pc)
-                sc.svar = {'spline'}
-                sc.walk(node.body, ([], [], 0))
-                if any(not a.startswith('.setFlag') for *_, a in sc.steps):
-                    lost.append(dict(props=['C02'], what='context reset block of _parse_cards has requirements'))
-            elif t is None:
-                lost.append(dict(props=['C02'], what=f'_parse_cards: test not understood: {ast.unparse(node.test)[:60]}'))
-            else:
-                scan_branch(t, whole, node.test, node.body)
-            if len(node.orelse) == 1 and isinstance(node.orelse[0], ast.If):
-                node = node.orelse[0]
-                continue
-            if node.orelse:
-                scan_branch('.otherwise', True, None, node.orelse)
-            return
-
-    for st in loop.body:
-        if isinstance(st, ast.Assign) and any(isinstance(t, ast.Name) and t.id == 'word' for t in st.targets):
-            seen_word = True
-            continue
-        if seen_word and isinstance(st, ast.If):
-            chain(st)
+    rejects_big = ia.get('rejects_big')
+    if rejects_big is None:
+        lose('is_atom: the treatment of coordinates above 4.0 could not be established')
+        rejects_big = True
+    shx_cards = probe.get('shx_cards')
+    if not shx_cards:
+        raise ValueError('SHX_CARDS not found')
+    case = probe.get('case', {})
+    case_sites = [('_parse_cards: word', bool(case.get('parse_cards'))),
+                  ('is_atom: first word', bool(case.get('is_atom'))),
+                  ('Command._parse_line: _card_name', bool(upper['cmd'])),
+                  ('Restraint._parse_line: name', bool(upper['restr']))]
+    # ---- the dispatch chain, keyword by keyword -----------------------------------------------------------------
+    ch = Chain(prog, prims, shelx_cls, pcf, owner)
+    if ch.statevar is None:
+        lose('_parse_cards: no variable that remembers the last header keyword found')
+    first = ch.run_key(('else', ''))          # first pass: which keywords does the loop test for, in which order
+    ch.lost = []
+    keys = [k for k in first.kw_seen if k != ('else', '')]
+    branches = []           # (key, steps)
+    cards_used = []
+    done = set()
+    while True:
+        todo = [k for k in keys + [('else', '')] if k not in done]
+        if not todo:
+            break
+        for key in todo:
+            done.add(key)
+            sc = ch.run_key(key)
+            branches.append((key, sc.steps))
+            cards_used += sc.cards_used
+            name = {'word': key[1], 'starts': key[1], 'atom': 'is_atom', 'else': 'else'}[key[0]]
+            for t in sc.lost:
+                lose(f'shelx.py branch {name}: not understood: {t}')
+            for k in sc.kw_seen:            # a keyword that is only tested for inside the handler of another one
+                if k not in keys and k != ('else', ''):
+                    keys.append(k)
+    order_of = {k: i for i, k in enumerate(keys + [('else', '')])}
+    branches.sort(key=lambda b: order_of[b[0]])
+    seen_lost = set()
+    for t in ch.lost:
+        if t not in seen_lost:
+            seen_lost.add(t)
+            lose(t)
     if len(branches) < 20:
-        lost.append(dict(props=['C02'], what=f'_parse_cards: only {len(branches)} branches recognised'))
-    # write -------------------------------------------------------------------------------------------------------
-    txt = [HEADER, 'import ShelxModel.C02', 'namespace Shelx.C02.Extracted', 'open Shelx.C02', '']
-    txt.append('def shxCards : List String := ' + lean_list([lean_str(s) for s in shx_cards]))
-    # (codes of the right-stripped entries: `word` of the model is right-stripped)
-    txt.append('def shxCodes : List Nat := ' + lean_list([str(encode(s)) for s in shx_cards]))
-    txt.append(f'def atomMinCols : Nat := {mincols}')
-    txt.append('def dispatch : List Branch := [')
-    txt.append(',\n'.join(f'  {{ test := {t},\n    steps := {lean_steps(s)} }}' for t, s in branches))
-    txt.append(']')
-    order = {n: i for i, (n, _) in enumerate(card_rows)}
+        lose(f'_parse_cards: only {len(branches)} branches recognised')
+    # ---- card rows (on demand) -----------------------------------------------------------------------------------
+    rows, order, sigs = [], {}, {}
+    todo = list(cards_used)
+    while todo:
+        row, cls, meth, sig = todo.pop(0)
+        if row in order:
+            if sigs[row] != sig:
+                lose(f'{row}: constructed with different argument roles: {sigs[row]} / {sig}')
+            continue
+        order[row] = len(rows)
+        sigs[row] = sig
+        rows.append(None)
+        sc = scan_card(prog, prims, row, cls, meth, sig, ch.pattr)
+        rows[order[row]] = (row, sc.steps)
+        for t in sc.lost:
+            lose(f'{prog.module(cls.mod).path.name} {row}: not understood: {t}')
+        todo += sc.cards_used
 
     def fix_idx(steps):
-        out = []
+        res = []
         for conds, catch, tid, act in steps:
             if act.startswith('.card '):
                 nm = act[len('.card '):].strip().strip('"')
                 act = f'.card {lean_str(nm)} {order.get(nm, 9999)}'
-            out.append((conds, catch, tid, act))
-        return out
-    branches = [(t, fix_idx(s)) for t, s in branches]
-    txt = [x for x in txt if not x.startswith('def dispatch') ]
-    # re-emit the dispatch with resolved card indices
-    txt = txt[:txt.index(next(x for x in txt if x.startswith('def atomMinCols'))) + 1]
+            res.append((conds, catch, tid, act))
+        return res
+    # ---- group keywords that share one arm and one handler (word in (...)) -----------------------------------------
+    grouped = []
+    for key, steps in branches:
+        steps = fix_idx(steps)
+        txt = lean_steps(steps)
+        if key[0] == 'word' and grouped and grouped[-1][0][0][0] == 'word' and grouped[-1][2] == txt:
+            grouped[-1][0].append(key)
+        else:
+            grouped.append(([key], steps, txt))
+
+    def test_of(ks):
+        k = ks[0]
+        if k[0] == 'atom':
+            return '.isAtom'
+        if k[0] == 'else':
+            return '.otherwise'
+        if k[0] == 'starts':
+            return f'.starts {lean_str(k[1])} {encode(k[1])}'
+        if len(ks) == 1:
+            return f'.wordEq {lean_str(k[1])} {encode(k[1])}'
+        return '.wordIn ' + lean_list([lean_str(x[1]) for x in ks]) + ' ' + lean_list([str(encode(x[1])) for x in ks])
+    # ---- write -----------------------------------------------------------------------------------------------------
+    txt = [HEADER, 'import ShelxModel.C02', 'namespace Shelx.C02.Extracted', 'open Shelx.C02', '']
+    txt.append('def shxCards : List String := ' + lean_list([lean_str(s) for s in shx_cards]))
+    # (codes of the entries: `word` of the model is right-stripped)
+    txt.append('def shxCodes : List Nat := ' + lean_list([str(encode(s)) for s in shx_cards]))
+    txt.append(f'def atomMinCols : Nat := {mincols}')
     txt.append('def dispatch : List Branch := [')
-    txt.append(',\n'.join(f'  {{ test := {t},\n    steps := {lean_steps(s)} }}' for t, s in branches))
+    txt.append(',\n'.join(f'  {{ test := {test_of(ks)},\n    steps := {t} }}' for ks, s, t in grouped))
     txt.append(']')
     txt.append('def cards : List CardReq := [')
-    txt.append(',\n'.join(f'  {{ name := {lean_str(n)},\n    steps := {lean_steps(s)} }}' for n, s in card_rows))
+    txt.append(',\n'.join(f'  {{ name := {lean_str(n)},\n    steps := {lean_steps(fix_idx(s))} }}' for n, s in rows))
     txt.append(']')
     txt.append(f'def dotNumeric : Bool := {"true" if dot else "false"}')
     txt.append(f'def atomRejectsBig : Bool := {"true" if rejects_big else "false"}')
